@@ -8,9 +8,12 @@ left to right, call / constructor / array-literal arguments right to left, && an
 Tie + search (checks/parts/evaldiff.py): the evaluator is extracted to OCaml
 (coq/Extract/ExtractEval.v -> build/ocaml/eval/run) together with a type-directed generator of
 well-typed, terminating programs (harness/ocaml/eval/gen.ml, idioms.ml; profiles arith, order, alias,
-closure, shadow, loops, records, arrays, catch, tailrec, mix).  Every generated program is compiled
+closure, shadow, loops, records, arrays, catch, tailrec, pipe, mix).  Every generated program is compiled
 and run by the tree's real compiler + VM (ASan/UBSan build, harness/common/nevrun.c); result value,
-printed numbers and unhandled exception must equal the evaluator's.
+printed numbers and unhandled exception must equal the evaluator's.  Every program additionally runs
+with one small VM heap (150 or 400 cells instead of 20000, alternating by case) so that collections
+happen while frames are suspended; a run that reaches the heap limit is skipped for that
+configuration, any other difference from the evaluator / crash is a violation (replay carries the heap).
   real != evaluator on an accepted program   -> ctx.violation   (shrunk; key = node-kind signature)
   crash / sanitizer report / time-out          -> ctx.violation   (C01 material, key crash:...)
   compiler rejects a generated program         -> ctx.correspondence_broken("generator-program-rejected")
@@ -29,14 +32,20 @@ from checks.parts import evaldiff
 
 CORPUS = os.path.join(common.VERIF, "corpus", "C02")
 
+HEAPS = (150, 400)
+
 NOT_MODELLED = [
-    "not modelled: adjacent nested functions are mutually visible in Never (typecheck.c seq_list_check_type); Src/Eval.v binds "
-    "them sequentially; the generator never lets an earlier sibling use a name that a later adjacent sibling defines",
+    "generator restriction: a nested function never takes a name that an ADJACENT EARLIER nested function uses for an outer "
+    "binding of another type (adjacent nested functions are mutually visible, in Never and in Src/Eval.v func_env: the earlier "
+    "body would be ill-typed); forward references, mutual recursion between siblings and a later sibling replacing an outer "
+    "function of the same type are generated",
     "generator restriction: a closure capturing x is never followed, later in the same block, by a binding of x (known finding "
     "late-shadow-after-closure, reported by C08 from corpus/C08)",
     "generator restriction: blocks end with an expression item; no compile-time constant zero divisors; shift counts 0..31; "
     "nil only as argument / assigned value; functions with var parameters are not used as first-class values (rules of the real "
-    "type checker, stricter than the evaluator)",
+    "type checker, stricter than the evaluator); == / != with nil on records, arrays and function values is generated, but a nil "
+    "array or a nil function value cannot be written in Never (nil is rejected as array / function argument and assigned value), "
+    "so those comparisons always see a non-nil reference",
     "tail-recursive loops run 150..450 iterations (30..250 outside the tailrec profile): the extracted evaluator keeps cells in a list "
     "and is quadratic in the number of cells",
     "not modelled: Src/Eval.v has no tail-call elimination: for a self tail call inside a function with catch clauses whose clause "
@@ -94,6 +103,10 @@ def evidence(ctx, r, rule):
     ctx.coverage["cases_by_profile"] = by
     ctx.coverage["cases"] = r["cases"]
     ctx.coverage["agreeing_cases"] = r["agree"]
+    ctx.coverage["heap_configurations"] = {"cells": r.get("heaps", []), "mode": r.get("heap_mode"), "default_cells": 20000,
+                                           "small_heap_runs": r.get("heap_runs", 0),
+                                           "small_heap_runs_agreeing_with_evaluator": r.get("heap_agree", 0),
+                                           "small_heap_runs_skipped_heap_limit": r.get("heap_limits", 0)}
     ctx.coverage["skipped"] = {"vm stack/heap limit reached": r["limits"],
                                "not run: batch time budget exhausted (only when many programs time out)": r["notrun"],
                                "dropped by the generator (evaluator time limit / fuel)": sum(
@@ -116,7 +129,7 @@ def run(ctx):
     n = 3400 if ctx.tier == "quick" else 54000
     r = evaldiff.run_evaldiff(ctx, evaldiff.ALL_PROFILES, n, ctx.tier, variants=("o",), nevrun=nevrun,
                               shrink_max=2 if ctx.tier == "quick" else 5,
-                              shrink_budget_s=45 if ctx.tier == "quick" else 90)
+                              shrink_budget_s=45 if ctx.tier == "quick" else 90, heaps=HEAPS, heap_mode="rotate")
     report_common(ctx, r, "evaldiff")
     seen = set()
     for c in sorted(r["c02"], key=lambda c: (0 if "minimised" in c else 1, c["nodes"])):
@@ -152,4 +165,5 @@ def run(ctx):
                      "closure: a closure called after its definer returned; shadow: >= 2 shadowing binders; loops: a loop; "
                      "records/arrays: construction + access; catch: a catch clause actually ran (its marker was printed); "
                      "tailrec: a self tail call loop of 150..450 iterations was run) and real and evaluator outcome agree; "
-                     "distinct = distinct source texts" % ctx.seed)
+                     "distinct = distinct source texts; evaluations = programs run with the default heap + runs with a small heap"
+                     % ctx.seed)
